@@ -44,6 +44,9 @@ def main(tier, replay, t0):
         for x in c.cfgs:
             g = c.gen[x["id"]]
             if g.get("result") != "ok":
+                v = probes.refusal_violation(c, x, "exported constant")
+                if v and any(not k["skipped"] for k in c.spec.consts):
+                    viol.append(v)
                 continue
             base = {"case_id": c.id, "wgsl": c.wgsl, "options": x["opt"]}
             inv = g.get("inv", {})
